@@ -1098,3 +1098,48 @@ Proof.
   destruct (t_path_step h o l x 0 false None None ni ltac:(lia) E) as (p & s & P' & _ & _ & _ & _ & T & _). eauto.
 Qed.
 
+Lemma forest_eq n : forest n = forest_from 64 n 0 0.
+Proof. reflexivity. Qed.
+
+(* a tree of a forest below 2^63 leafs: where it lies, and that the model's descent agrees with the tree's own *)
+Lemma forest63_tree n t : 0 <= n < 2 ^ 63 -> In t (forest n) ->
+  0 <= pt_offset t /\ pt_root t <= ncount n /\ ncount n < pt_root t + tsize (pt_height t) + 1 /\
+  pt_root t + tsize (pt_height t) + 1 < 2 ^ 64 /\
+  (forall p a b c, pt_offset t < p <= pt_root t ->
+     desc (pt_height t) (pt_offset t) (pt_first_leaf t) p 0 = Some (a, b, c) ->
+     mm_right_lineage_length_and_own_height p = Some (a, b)).
+Proof.
+  intros Hn HI. rewrite forest_eq in HI.
+  assert (F : forest_from 64 n 0 0 = forest_from 63 n 0 0).
+  { replace 64%nat with (1 + 63)%nat by reflexivity. apply forest_from_skip. rewrite tleafs_63. lia. }
+  rewrite F in HI.
+  destruct (forest_from_In 63 n 0 0 t ltac:(rewrite tleafs_63; lia) HI) as (A & B & C & D & Ed).
+  rewrite tsize_63 in D.
+  split; [exact A|]. split; [lia|]. split; [lia|]. split; [lia|].
+  intros p a b c Hp Dp.
+  destruct (rll_and_height_desc p ltac:(pose proof (tsize_pos (pt_height t)); lia)) as (a' & b' & c' & D' & L).
+  assert (S1 : desc 64 0 0 p 0 = desc 63 0 0 p 0).
+  { replace 64%nat with (1 + 63)%nat by reflexivity. apply desc_left_spine. rewrite tsize_63.
+    pose proof (tsize_pos (pt_height t)). lia. }
+  rewrite S1 in D'. rewrite (Ed p 0 Hp) in D'. rewrite Dp in D'. injection D' as <- <- <-. exact L.
+Qed.
+
+Theorem auth_path_correct n start tg : 0 <= n < 2 ^ 63 -> 1 <= start <= ncount n -> 1 <= tg <= ncount n ->
+  mm_get_authentication_path_node_indices start tg (ncount n) = spec_auth_path n start tg.
+Proof.
+  intros Hn Hs Ht.
+  assert (H64 : 0 <= n < 2 ^ 64) by (pow_lits; lia). pose proof (ncount_lt64 n Hn) as Hc.
+  destruct (node_located n start H64 Hc Hs) as (pk & t & ni & E & _ & _ & _ & HI & Hhas).
+  unfold spec_auth_path. rewrite E.
+  destruct (forest63_tree n t Hn HI) as (A & B & C & D & G).
+  unfold pt_has_node in Hhas. apply andb_prop in Hhas. destruct Hhas as [Hh1 Hh2].
+  apply Z.ltb_lt in Hh1. apply Z.leb_le in Hh2.
+  destruct (t_path_total (pt_height t) (pt_offset t) (pt_first_leaf t) start ltac:(unfold pt_root in *; lia)) as (P & T).
+  rewrite T. unfold mm_get_authentication_path_node_indices.
+  pose proof (t_path_length _ _ _ _ _ T) as HL. cbn [length] in HL.
+  assert (Hh : (pt_height t <= 63)%nat).
+  { apply tsize_lt64_inv. pose proof (tsize_pos (pt_height t)). unfold pt_root in *. lia. }
+  unfold pt_root in *.
+  apply (auth_loop_tree (pt_height t) (pt_offset t) (pt_first_leaf t) (ncount n) tg A D ltac:(lia) Ht G)
+    with (len := length P); [reflexivity|lia|exact T|lia].
+Qed.
